@@ -35,6 +35,15 @@ theorem reachable_positive {s : St} (h : Reach s) :
     (∀ n i, s.cached n = some i → 0 < s.count i) ∧ (∀ i, 0 < s.handed i → 0 < s.count i) :=
   ⟨Gkv.Refs.reachable_positive h, Gkv.Refs.handed_positive h⟩
 
+/-- "never premature", read from gkvlite's side: every item it is entitled to look at — reached
+    through an allocated node that caches it, or held for handing out — has a positive count, so an
+    allocator that recycles items at count zero never pulls one away from under it.  Defect F20
+    (the ascending visit and the block visitors went on using items they had released) is a use
+    OUTSIDE `mayLookAt`; `Proofs/Refs.lean` has that trace as a decided example, and the harness's
+    scrubbing allocator is what exhibits such a use on the code. -/
+theorem looked_at_items_are_counted {s : St} (h : Reach s) (i : Nat) (hl : mayLookAt s i) :
+    0 < s.count i := Gkv.Refs.looked_at_is_counted h i hl
+
 /-- PARTIAL.  The property's last clause ("once the store and all its snapshots are closed, every
     reference gkvlite took has been released") under the hypothesis `hn` that every node object
     was freed, and the caller returned what it was handed.  Whether closing everything frees
